@@ -7,13 +7,13 @@
     [wfb] without any error ([C05_scope_leak_refuted], [C05_scope_read_refuted],
     [C05_unobserved_cycle_refuted]).  What is proved is the invariance of [EngineInv.Inv]
     (which implies [EngineWf.wfb], [C05_invariant_implies_wfb]) over CLEAN histories
-    ([EngineInv.run_clean]: every operation well-formed and clean, none crashed or ran out
-    of fuel, none rejected):
-    - for every clean history without binds: [C05_wf_every_boundary_partial];
-    - for every clean history, given the one missing lemma about the stabilization of a bind's
-      lhs-change node ([EngineInvProofs.bind_spec]): [C05_wf_every_boundary_if_bind_spec];
-    - per operation group, for ALL states satisfying the invariant (binds included):
-      [C05_step_new] ... [C05_step_addinput]. *)
+    ([EngineInv.run_clean]: every operation well-formed and clean — no memoized binds, no
+    parallel stabilization, every node an operation names is a top-level node, AddInput only
+    towards an older node —, none crashed or ran out of fuel, none rejected for a cycle or the
+    height limit):
+    - for every clean history, binds and their rebuilds included: [C05_wf_every_boundary_partial];
+    - per operation group, for ALL states satisfying the invariant:
+      [C05_step_new] ... [C05_step_stabilize], [C05_step]. *)
 From incr Require Import Base Heap HeapSpec EngineDefs Engine EngineWf EngineLemmas EngineInv EngineInvProofs.
 
 Theorem C05_init : forall mh, (0 < mh)%nat -> Inv (init mh).
@@ -70,7 +70,31 @@ Theorem C05_step_addinput : forall s o s' e,
 Proof. exact Inv_step_addinput. Qed.
 Print Assumptions C05_step_addinput.
 
-(** the pass: for states without bind records; and for all states given [bind_spec] *)
+(** the pass, for every plan, on every state satisfying the invariant (bind rebuilds included) *)
+Theorem C05_step_stabilize : forall s o s' e,
+  Inv s -> op_ok s o = true -> is_stabilize o = true -> step s o = Ok (s', e) ->
+  e <> Some ECycle -> e <> Some EHeightLimit -> Inv s'.
+Proof. exact Inv_step_stabilize. Qed.
+Print Assumptions C05_step_stabilize.
+
+Theorem C05_step : forall s o s' e,
+  Inv s -> op_ok s o = true -> op_clean s o = true -> step s o = Ok (s', e) ->
+  e <> Some ECycle -> e <> Some EHeightLimit -> Inv s'.
+Proof. exact Inv_step. Qed.
+Print Assumptions C05_step.
+
+(** whole histories *)
+Theorem C05_wf_every_boundary_partial : forall mh os s,
+  (0 < mh)%nat -> run_clean (init mh) os = Some s -> wfb s = true.
+Proof. exact wf_every_boundary. Qed.
+Print Assumptions C05_wf_every_boundary_partial.
+
+(** earlier, weaker forms (kept: they are referred to elsewhere); [bind_spec] is now a theorem,
+    [C05_bind_spec] *)
+Theorem C05_bind_spec : bind_spec (fun _ => True).
+Proof. exact bind_spec_holds. Qed.
+Print Assumptions C05_bind_spec.
+
 Theorem C05_step_stabilize_bindfree : forall s o s' e,
   Inv s -> binds s = ∅ -> op_ok s o = true -> is_stabilize o = true -> step s o = Ok (s', e) ->
   e <> Some ECycle -> e <> Some EHeightLimit -> Inv s' /\ binds s' = ∅.
@@ -83,12 +107,6 @@ Theorem C05_step_if_bind_spec : forall s o s' e,
   e <> Some ECycle -> e <> Some EHeightLimit -> Inv s'.
 Proof. exact Inv_step_cond. Qed.
 Print Assumptions C05_step_if_bind_spec.
-
-(** whole histories *)
-Theorem C05_wf_every_boundary_partial : forall mh os s,
-  (0 < mh)%nat -> forallb op_nobind os = true -> run_clean (init mh) os = Some s -> wfb s = true.
-Proof. exact wf_every_boundary_bindfree. Qed.
-Print Assumptions C05_wf_every_boundary_partial.
 
 Theorem C05_wf_every_boundary_if_bind_spec : forall mh os s,
   bind_spec (fun _ => True) -> (0 < mh)%nat -> run_clean (init mh) os = Some s -> wfb s = true.
